@@ -1,6 +1,7 @@
 from collections import OrderedDict
 
 import abc
+import copy
 import uuid
 import warnings
 from contextlib import contextmanager
@@ -1613,7 +1614,9 @@ class Data(BaseCartesianData):
             cname = cid.label
             if cname in new_labels - old_labels:
                 cid = data.find_component_id(cname)
-                comp_new = data.get_component(cname)
+                # a component object belongs to one dataset: updating the new
+                # dataset later must not change this one behind its back
+                comp_new = copy.copy(data.get_component(cname))
                 self.add_component(comp_new, cid.label)
 
         # Update data label
